@@ -227,82 +227,82 @@ func (r *Runner) c09Fixtures() map[string]string {
 	// accepted with output that type-checks; never a panic, a hang, or exit 0 with an ill-typed package.
 	pre := "type A struct{ X int }\n\ntype B struct{ Y string }\n\ntype NBool bool\n\nfunc one(a int) int { return a }\n\nfunc zero() int { return 0 }\n\nfunc two(a int, b string) bool { return a > len(b) }\n\nfunc vari(a int, bs ...string) int { return a + len(bs) }\n\nfunc ferr() (int, error) { return 0, nil }\n\nfunc serr(s string) (int, error) { return len(s), nil }\n\n"
 	for name, body := range map[string]string{
-		"flip_one":          "func use() { _ = deriveFlip(one) }",
-		"flip_zero":         "func use() { _ = deriveFlip(zero) }",
-		"flip_nonfunc":      "func use() { _ = deriveFlip(3) }",
-		"flip_variadic":     "func use() { _ = deriveFlip(vari) }",
-		"curry_one":         "func use() { _ = deriveCurry(one) }",
-		"curry_nonfunc":     "func use() { _ = deriveCurry(\"x\") }",
-		"curry_variadic":    "func use() { _ = deriveCurry(vari) }",
-		"uncurry_flat":      "func use() { _ = deriveUncurry(one) }",
-		"apply_one":         "func use() { _ = deriveApply(one, 1) }",
-		"apply_mismatch":    "func use() { _ = deriveApply(two, 3.5) }",
-		"apply_nonfunc":     "func use() { _ = deriveApply(3, 4) }",
-		"min_bool":          "func use(a, b bool) bool { return deriveMin(a, b) }",
-		"max_bool":          "func use(a, b bool) bool { return deriveMax(a, b) }",
-		"min_complex":       "func use(a, b complex128) complex128 { return deriveMin(a, b) }",
-		"min_listbool":      "func use(l []bool, d bool) bool { return deriveMin(l, d) }",
-		"min_func":          "func use() { _ = deriveMin(one, one) }",
-		"min_untyped":       "func use() int { return deriveMin(1, 2) }",
-		"min_untypedbool":   "func use() bool { return deriveMin(true, false) }",
-		"max_listcomplex":   "func use(l []complex64, d complex64) complex64 { return deriveMax(l, d) }",
-		"sort_bool":         "func use() []bool { return deriveSort([]bool{true, false}) }",
-		"sort_namedbool":    "func use() []NBool { return deriveSort([]NBool{true, false}) }",
-		"sort_complex":      "func use() []complex128 { return deriveSort([]complex128{1i}) }",
-		"sort_func":         "func use() { _ = deriveSort([]func(){}) }",
-		"sort_nonslice":     "func use() { _ = deriveSort(3) }",
-		"keys_nonmap":       "func use() { _ = deriveKeys([]int{1}) }",
-		"keys_two":          "func use() { _ = deriveKeys(map[int]int{}, 1) }",
-		"equal_three":       "func use(a, b *A) { _ = deriveEqual(a, b, a) }",
-		"equal_mismatch":    "func use(a *A, b *B) { _ = deriveEqual(a, b) }",
-		"equal_none":        "func use() { _ = deriveEqual() }",
-		"compare_mismatch":  "func use() { _ = deriveCompare(1, \"a\") }",
-		"compare_three":     "func use(a *A) { _ = deriveCompare(a, a, a) }",
-		"hash_two":          "func use(a *A) { _ = deriveHash(a, a) }",
-		"hash_none":         "func use() { _ = deriveHash() }",
-		"deepcopy_mismatch": "func use(a *A, b *B) { deriveDeepCopy(a, b) }",
-		"deepcopy_value":    "func use(a, b A) { deriveDeepCopy(a, b) }",
-		"deepcopy_one":      "func use(a *A) { deriveDeepCopy(a) }",
-		"clone_func":        "func use() { _ = deriveClone(one) }",
-		"clone_two":         "func use(a *A) { _ = deriveClone(a, a) }",
-		"gostring_two":      "func use(a *A) { _ = deriveGoString(a, a) }",
-		"fmap_nonfunc":      "func use() { _ = deriveFmap(3, []int{1}) }",
-		"fmap_wrongelem":    "func use() { _ = deriveFmap(func(s string) int { return len(s) }, []int{1}) }",
-		"fmap_nonlist":      "func use() { _ = deriveFmap(one, 3) }",
-		"fmap_twoparams":    "func use() { _ = deriveFmap(two, []int{1}) }",
-		"join_nonslice":     "func use() { _ = deriveJoin(3) }",
-		"join_flat":         "func use() { _ = deriveJoin([]int{1}) }",
-		"filter_badpred":    "func use() { _ = deriveFilter(one, []int{1}) }",
-		"filter_wrongelem":  "func use() { _ = deriveFilter(func(s string) bool { return s == \"\" }, []int{1}) }",
-		"takewhile_badpred": "func use() { _ = deriveTakeWhile(one, []int{1}) }",
-		"all_badpred":       "func use() { _ = deriveAll(one, []int{1}) }",
-		"any_nonfunc":       "func use() { _ = deriveAny(3, []int{1}) }",
-		"compose_mismatch":  "func use() { _ = deriveCompose(ferr, serr) }",
-		"compose_noerr":     "func use() { _ = deriveCompose(zero, one) }",
-		"compose_one":       "func use() { _ = deriveCompose(ferr) }",
-		"mem_nonfunc":       "func use() { _ = deriveMem(3) }",
-		"mem_variadic":      "func use() { _ = deriveMem(vari) }",
-		"mem_funcparam":     "func use() { _ = deriveMem(func(f func()) int { return 0 }) }",
-		"apply_variadic":    "func use() { _ = deriveApply(vari, \"x\") }",
-		"uncurry_variadic":  "func use() { _ = deriveUncurry(func(a int) func(bs ...string) int { return nil }) }",
-		"toerror_variadic":  "func use() { _ = deriveToError(nil, func(a int, bs ...string) (int, bool) { return 0, true }) }",
-		"do_nonfunc":        "func use() { _, _, _ = deriveDo(3, 4) }",
-		"do_noerr":          "func use() { _, _, _ = deriveDo(zero, zero) }",
-		"do_one":            "func use() { _, _ = deriveDo(ferr) }",
-		"tuple_none":        "func use() { _ = deriveTuple() }",
-		"toerror_noresult":  "func use() { _ = deriveToError(nil, zero) }",
-		"toerror_nonfunc":   "func use() { _ = deriveToError(nil, 3) }",
-		"traverse_nonfunc":  "func use() { _, _ = deriveTraverse(3, []int{1}) }",
-		"traverse_noerr":    "func use() { _, _ = deriveTraverse(one, []int{1}) }",
-		"unique_func":       "func use() { _ = deriveUnique([]func(){}) }",
-		"unique_nonslice":   "func use() { _ = deriveUnique(3) }",
-		"set_func":          "func use() { _ = deriveSet([]func(){}) }",
-		"contains_mismatch": "func use() { _ = deriveContains([]int{1}, \"a\") }",
-		"contains_func":     "func use() { _ = deriveContains([]func(){}, zero) }",
+		"flip_one":           "func use() { _ = deriveFlip(one) }",
+		"flip_zero":          "func use() { _ = deriveFlip(zero) }",
+		"flip_nonfunc":       "func use() { _ = deriveFlip(3) }",
+		"flip_variadic":      "func use() { _ = deriveFlip(vari) }",
+		"curry_one":          "func use() { _ = deriveCurry(one) }",
+		"curry_nonfunc":      "func use() { _ = deriveCurry(\"x\") }",
+		"curry_variadic":     "func use() { _ = deriveCurry(vari) }",
+		"uncurry_flat":       "func use() { _ = deriveUncurry(one) }",
+		"apply_one":          "func use() { _ = deriveApply(one, 1) }",
+		"apply_mismatch":     "func use() { _ = deriveApply(two, 3.5) }",
+		"apply_nonfunc":      "func use() { _ = deriveApply(3, 4) }",
+		"min_bool":           "func use(a, b bool) bool { return deriveMin(a, b) }",
+		"max_bool":           "func use(a, b bool) bool { return deriveMax(a, b) }",
+		"min_complex":        "func use(a, b complex128) complex128 { return deriveMin(a, b) }",
+		"min_listbool":       "func use(l []bool, d bool) bool { return deriveMin(l, d) }",
+		"min_func":           "func use() { _ = deriveMin(one, one) }",
+		"min_untyped":        "func use() int { return deriveMin(1, 2) }",
+		"min_untypedbool":    "func use() bool { return deriveMin(true, false) }",
+		"max_listcomplex":    "func use(l []complex64, d complex64) complex64 { return deriveMax(l, d) }",
+		"sort_bool":          "func use() []bool { return deriveSort([]bool{true, false}) }",
+		"sort_namedbool":     "func use() []NBool { return deriveSort([]NBool{true, false}) }",
+		"sort_complex":       "func use() []complex128 { return deriveSort([]complex128{1i}) }",
+		"sort_func":          "func use() { _ = deriveSort([]func(){}) }",
+		"sort_nonslice":      "func use() { _ = deriveSort(3) }",
+		"keys_nonmap":        "func use() { _ = deriveKeys([]int{1}) }",
+		"keys_two":           "func use() { _ = deriveKeys(map[int]int{}, 1) }",
+		"equal_three":        "func use(a, b *A) { _ = deriveEqual(a, b, a) }",
+		"equal_mismatch":     "func use(a *A, b *B) { _ = deriveEqual(a, b) }",
+		"equal_none":         "func use() { _ = deriveEqual() }",
+		"compare_mismatch":   "func use() { _ = deriveCompare(1, \"a\") }",
+		"compare_three":      "func use(a *A) { _ = deriveCompare(a, a, a) }",
+		"hash_two":           "func use(a *A) { _ = deriveHash(a, a) }",
+		"hash_none":          "func use() { _ = deriveHash() }",
+		"deepcopy_mismatch":  "func use(a *A, b *B) { deriveDeepCopy(a, b) }",
+		"deepcopy_value":     "func use(a, b A) { deriveDeepCopy(a, b) }",
+		"deepcopy_one":       "func use(a *A) { deriveDeepCopy(a) }",
+		"clone_func":         "func use() { _ = deriveClone(one) }",
+		"clone_two":          "func use(a *A) { _ = deriveClone(a, a) }",
+		"gostring_two":       "func use(a *A) { _ = deriveGoString(a, a) }",
+		"fmap_nonfunc":       "func use() { _ = deriveFmap(3, []int{1}) }",
+		"fmap_wrongelem":     "func use() { _ = deriveFmap(func(s string) int { return len(s) }, []int{1}) }",
+		"fmap_nonlist":       "func use() { _ = deriveFmap(one, 3) }",
+		"fmap_twoparams":     "func use() { _ = deriveFmap(two, []int{1}) }",
+		"join_nonslice":      "func use() { _ = deriveJoin(3) }",
+		"join_flat":          "func use() { _ = deriveJoin([]int{1}) }",
+		"filter_badpred":     "func use() { _ = deriveFilter(one, []int{1}) }",
+		"filter_wrongelem":   "func use() { _ = deriveFilter(func(s string) bool { return s == \"\" }, []int{1}) }",
+		"takewhile_badpred":  "func use() { _ = deriveTakeWhile(one, []int{1}) }",
+		"all_badpred":        "func use() { _ = deriveAll(one, []int{1}) }",
+		"any_nonfunc":        "func use() { _ = deriveAny(3, []int{1}) }",
+		"compose_mismatch":   "func use() { _ = deriveCompose(ferr, serr) }",
+		"compose_noerr":      "func use() { _ = deriveCompose(zero, one) }",
+		"compose_one":        "func use() { _ = deriveCompose(ferr) }",
+		"mem_nonfunc":        "func use() { _ = deriveMem(3) }",
+		"mem_variadic":       "func use() { _ = deriveMem(vari) }",
+		"mem_funcparam":      "func use() { _ = deriveMem(func(f func()) int { return 0 }) }",
+		"apply_variadic":     "func use() { _ = deriveApply(vari, \"x\") }",
+		"uncurry_variadic":   "func use() { _ = deriveUncurry(func(a int) func(bs ...string) int { return nil }) }",
+		"toerror_variadic":   "func use() { _ = deriveToError(nil, func(a int, bs ...string) (int, bool) { return 0, true }) }",
+		"do_nonfunc":         "func use() { _, _, _ = deriveDo(3, 4) }",
+		"do_noerr":           "func use() { _, _, _ = deriveDo(zero, zero) }",
+		"do_one":             "func use() { _, _ = deriveDo(ferr) }",
+		"tuple_none":         "func use() { _ = deriveTuple() }",
+		"toerror_noresult":   "func use() { _ = deriveToError(nil, zero) }",
+		"toerror_nonfunc":    "func use() { _ = deriveToError(nil, 3) }",
+		"traverse_nonfunc":   "func use() { _, _ = deriveTraverse(3, []int{1}) }",
+		"traverse_noerr":     "func use() { _, _ = deriveTraverse(one, []int{1}) }",
+		"unique_func":        "func use() { _ = deriveUnique([]func(){}) }",
+		"unique_nonslice":    "func use() { _ = deriveUnique(3) }",
+		"set_func":           "func use() { _ = deriveSet([]func(){}) }",
+		"contains_mismatch":  "func use() { _ = deriveContains([]int{1}, \"a\") }",
+		"contains_func":      "func use() { _ = deriveContains([]func(){}, zero) }",
 		"intersect_mismatch": "func use() { _ = deriveIntersect([]int{1}, []string{\"a\"}) }",
-		"union_mismatch":    "func use() { _ = deriveUnion([]int{1}, map[int]struct{}{}) }",
-		"dup_nonchan":       "func use() { _, _ = deriveDup(3) }",
-		"pipeline_mismatch": "func use() { _ = derivePipeline(func(a int) <-chan string { return nil }, func(b int) <-chan int { return nil }) }",
+		"union_mismatch":     "func use() { _ = deriveUnion([]int{1}, map[int]struct{}{}) }",
+		"dup_nonchan":        "func use() { _, _ = deriveDup(3) }",
+		"pipeline_mismatch":  "func use() { _ = derivePipeline(func(a int) <-chan string { return nil }, func(b int) <-chan int { return nil }) }",
 	} {
 		fxs = append(fxs, fx{"arg:" + name, "arg_" + name, fmt.Sprintf("package arg_%s\n\n%s%s\n", name, pre, body)})
 	}
